@@ -33,7 +33,7 @@ func init() {
 // sweep above 512 then passes through the exact fit of that record.
 const c09Q = "www.department-of-redundancy.subsidiary-office-west.example.org."
 
-var c09ShapeNames = []string{"A-qname", "A-other", "CNAME-suffix", "TXT200", "A-escaped", "AAAA-qname", "MX-suffix", "SRV", "TXT-filler", "NS-deleg", "A-glue", "NSEC-empty-bitmap", "IPSECKEY-host", "A-on-gateway"}
+var c09ShapeNames = []string{"A-qname", "A-other", "CNAME-suffix", "TXT200", "A-escaped", "AAAA-qname", "MX-suffix", "SRV", "TXT-filler", "NS-deleg", "A-glue", "NSEC-empty-bitmap", "IPSECKEY-host", "A-on-gateway", "MX:self-compressing", "NS:self-compressing"}
 
 // shapes 8..10 are used by the beyond-16384 space only (never drawn from the pool)
 const c09NSTarget = "ns1.delegated-child-zone.example.net."
@@ -48,6 +48,12 @@ func c09Filler(R int) dns.RR {
 	}
 	chunks = append(chunks, strings.Repeat("f", L-255*(n-1)))
 	return &dns.TXT{Hdr: dns.RR_Header{Name: c09Q, Rrtype: dns.TypeTXT, Class: dns.ClassINET, Ttl: 300}, Txt: chunks}
+}
+
+// c09LongOwnerAt: a 246-octet owner name that shares nothing but example.org. with the owners at other positions
+func c09LongOwnerAt(pos int) string {
+	l := string(rune('a' + pos%20))
+	return strings.Repeat(l, 60) + "." + strings.Repeat(l+"x", 30) + "." + strings.Repeat(l+"y", 30) + "." + strings.Repeat(l, 50) + ".example.org."
 }
 
 const c09ESC = 4 // index of the escaped-owner shape in c09ShapeNames
@@ -88,6 +94,11 @@ func c09RR(sh, pos int) dns.RR {
 		return &dns.IPSECKEY{Hdr: h(c09Q, dns.TypeIPSECKEY), Precedence: 1, GatewayType: 3, Algorithm: 1, GatewayHost: "gw.some.long.other.zone.net.", PublicKey: "AQID"}
 	case 13:
 		return &dns.A{Hdr: h("gw.some.long.other.zone.net.", dns.TypeA), A: []byte{10, 1, byte(pos >> 8), byte(pos)}}
+	case 14:
+		// a record that can compress against itself: the RDATA name ends in the (long) owner name
+		return &dns.MX{Hdr: h(c09LongOwnerAt(pos), dns.TypeMX), Preference: uint16(10 + pos), Mx: "mx." + c09LongOwnerAt(pos)}
+	case 15:
+		return &dns.NS{Hdr: h(c09LongOwnerAt(pos), dns.TypeNS), Ns: "ns" + fmt.Sprint(pos) + "." + c09LongOwnerAt(pos)}
 	}
 	panic("shape")
 }
@@ -103,6 +114,7 @@ type c09Msg struct {
 	tc         bool
 	tsig       bool // TSIG as very last additional record
 	inexact    bool // the message holds types outside the "common types" of the statement's last clause
+	noQuestion bool // the reply has no question section (a pointer can then only go to a name of the records themselves)
 	largeT     int  // > 0 (beyond-16384 space): the 4th filler TXT is sized so that the NS target name starts at this offset of the compressed message
 }
 
@@ -137,6 +149,9 @@ func c09Build(d c09Msg) *dns.Msg {
 	m.Truncated = d.tc
 	m.Compress = d.compress
 	m.Question = []dns.Question{{Name: c09Q, Qtype: dns.TypeA, Qclass: dns.ClassINET}}
+	if d.noQuestion {
+		m.Question = nil
+	}
 	p := 0
 	for i := 0; i < d.na; i++ {
 		m.Answer = append(m.Answer, c09RR(d.shapes[p], p))
@@ -591,6 +606,27 @@ func c09Spaces(c *fw.Ctx) {
 						for f := 0; f < 4; f++ {
 							d := c09Msg{na: lay[0], nn: lay[1], nx: lay[2], shapes: make([]int, lay[0]+lay[1]+lay[2]), opt: opt, firstTxtLen: L, compress: f&1 != 0, tc: f&2 != 0}
 							emit(func(r *fw.R) { c09Reply(r, d) })
+						}
+					}
+				}
+			}
+		})
+
+	c.Space("self-compressing", "replies of 1..3 MX / NS records whose RDATA name ends in their own 246-octet owner name (a record that fits only because it compresses against itself), in the layouts (1,0,0) (2,0,0) (1,1,0) (0,0,1) (1,0,1) (0,1,1) (3,0,0) × with / without a question section × OPT {none, last} × Compress × Truncated; sizes as in 'replies'; non-trivial: some size drops a record", true,
+		func(emit func(func(*fw.R))) {
+			for _, lay := range [][3]int{{1, 0, 0}, {2, 0, 0}, {1, 1, 0}, {0, 0, 1}, {1, 0, 1}, {0, 1, 1}, {3, 0, 0}} {
+				for _, sh := range []int{14, 15} {
+					for _, noQ := range []bool{true, false} {
+						for opt := 0; opt <= 1; opt++ {
+							for f := 0; f < 4; f++ {
+								n := lay[0] + lay[1] + lay[2]
+								shapes := make([]int, n)
+								for i := range shapes {
+									shapes[i] = sh
+								}
+								d := c09Msg{na: lay[0], nn: lay[1], nx: lay[2], shapes: shapes, opt: opt, noQuestion: noQ, compress: f&1 != 0, tc: f&2 != 0, inexact: false}
+								emit(func(r *fw.R) { c09Reply(r, d) })
+							}
 						}
 					}
 				}
